@@ -32,6 +32,8 @@ FUNCS = [
     ("BoundCheck", "array.py", "bound_check", "LL"),
     # methods of Chunk (the free-list entries of XBuffer): the object is a record of its attributes, a method that assigns to
     # `self.<attr>` and returns self becomes a function returning the new record (O = a Chunk)
+    # T = a str-or-list argument (`order`: "C", "F" or an explicit list of axes)
+    ("MkOrder", "array.py", "mk_order", "TL"),
     ("ChunkSize", "context.py", "Chunk.size", "O"),
     ("ChunkOverlaps", "context.py", "Chunk.overlaps", "OO"),
     ("ChunkMerge", "context.py", "Chunk.merge", "OO"),
@@ -110,6 +112,9 @@ class Tr:
             op = " && " if isinstance(x.op, ast.And) else " || "
             return "(" + op.join(self.e(v) for v in x.values) + ")"
         if isinstance(x, ast.Compare):
+            if len(x.ops) == 1 and isinstance(x.ops[0], ast.Eq) and isinstance(x.left, ast.Name) and self.kind_of(x.left.id) == "T" \
+                    and isinstance(x.comparators[0], ast.Constant) and isinstance(x.comparators[0].value, str):
+                return f'(Py.eqStr {x.left.id} "{x.comparators[0].value}")'
             parts, left = [], x.left
             for op, right in zip(x.ops, x.comparators):
                 if type(op) not in CMP:
@@ -145,6 +150,8 @@ class Tr:
                 return f"(Py.len {self.e(args[0])})"
             if n == "range" and len(args) == 1:
                 return f"(Py.range {self.e(args[0])})"
+            if n == "range" and len(args) == 3:
+                return f"(Py.range3 {self.e(args[0])} {self.e(args[1])} {self.e(args[2])})"
             if n == "reversed" and len(args) == 1:
                 return f"(List.reverse {self.e(args[0])})"
             if n in ("tuple", "list") and len(args) == 1:
@@ -188,6 +195,8 @@ class Tr:
         if isinstance(s, ast.Return):
             if s.value is None:
                 return [ind + "return ()"]
+            if isinstance(s.value, ast.Name) and self.kind_of(s.value.id) == "T":
+                return [ind + f"return (Py.asList {s.value.id})"]
             return [ind + f"return {self.e(s.value)}"]
         if isinstance(s, ast.Assign) and len(s.targets) == 1 and isinstance(s.targets[0], ast.Attribute):
             tg = s.targets[0]
@@ -223,7 +232,7 @@ class Tr:
         raise Unsupported("statement " + type(s).__name__)
 
     def lean(self, lname):
-        ty = {"I": "Int", "L": "List Int", "O": "Py.Obj"}
+        ty = {"I": "Int", "L": "List Int", "O": "Py.Obj", "T": "Py.StrOrList"}
         objs = [a.arg for a, k in zip(self.fn.args.args, self.kinds) if k == "O"]
         params = " ".join(f"({a.arg + ('0' if k == 'O' else '')} : {ty[k]})" for a, k in zip(self.fn.args.args, self.kinds))
         if len(self.fn.args.args) != len(self.kinds) or self.fn.args.vararg or self.fn.args.kwarg or self.fn.args.defaults:
